@@ -1052,9 +1052,16 @@ pub fn generate(rng: &mut Rng, opts: &GenOpts) -> Program {
         stmts.append(&mut main);
         if needs_halt || !subs.is_empty() {
             // A subroutine area must never be entered by falling through
+            // (now and then the HALT is a raw word with the unused bits 11:8 set: still TRAP x25)
+            let mut lr = Rng::new(layout_seed ^ 0x4a17);
+            let halt_text = if lr.chance(1, 8) {
+                format!(".fill xF{:X}25", 1 + lr.below(15))
+            } else {
+                "halt".to_string()
+            };
             stmts.push(Stmt {
                 labels: vec![],
-                text: "halt".to_string(),
+                text: halt_text,
                 words: 1,
                 breaks: 0,
             });
